@@ -15,7 +15,7 @@ where
     A: Fx + codec::Encode + codec::Decode + codec::MaxEncodedLen + serde::Serialize + serde::de::DeserializeOwned,
     <A as Fixed>::Bits: codec::Encode + Hash,
     <A as Fixed>::Bytes: AsRef<[u8]> + Copy,
-    sfv::sf::Wrapping<A>: serde::Serialize,
+    sfv::sf::Wrapping<A>: serde::Serialize + serde::de::DeserializeOwned,
     A: PartialOrd<I40F88> + PartialOrd<U0F128>,
     I40F88: PartialOrd<A>, U0F128: PartialOrd<A>,
     i8: PartialOrd<A>, i64: PartialOrd<A>, u128: PartialOrd<A>, f32: PartialOrd<A> + LossyFrom<A>, f64: PartialOrd<A> + LossyFrom<A>,
